@@ -9,7 +9,8 @@
    PARTIAL: the statement "every violation the monitor reports on a model trace is one of the four
    known findings" (C16_modulo_findings for the sequential model) is checked on every run against
    the real broker and the model but is not yet proved for all histories. *)
-From MV Require Import Base.Val Base.Sched Session.Lifecycle Session.LifeSpec Session.LifeKF Conc.Takeover Conc.TakeoverProofs.
+From MV Require Import Base.Val Base.Sched Session.Lifecycle Session.LifeSpec Session.LifeKF Session.LifeProofs13 Session.LifeProofs16
+  Conc.Takeover Conc.TakeoverProofs.
 Open Scope N_scope.
 
 Definition model_obs (k : caps) (ops : list op) : list obs := map obs_of (trace k init ops).
@@ -69,6 +70,23 @@ Theorem C16_refuted_delayed_retain :
   forallb (KF_C16_delayed_retain_gone capsD (model_obs capsD hist_retain)) (mon16 capsD (model_obs capsD hist_retain)) = true.
 Proof. vm_compute. split; reflexivity. Qed.
 
+(* ---- for every history of operations (sequential model) ---- *)
+
+(* content: every will publication, in every history, carries topic, payload, QoS and retain flag of a
+   CONNECT of that connection which had the will flag set ([reg_of]: the wills registered by the
+   history's CONNECTs; connection numbers are fresh, so it is THE will the connection registered) *)
+Theorem C16_content : forall (k : caps) (ops : list op) (t : tstep) (c : N) (m : msg),
+  In t (trace k init ops) -> In m (wills_for c (t_outs t)) -> In (c, m) (reg_of ops).
+Proof.
+  intros k ops t c m. apply wills_content_from_init.
+Qed.
+
+(* a will is published only by its own connection's handler when it ends with an error while the
+   will is armed, or by the delayed-will tick from the table: nothing else publishes a will *)
+Theorem C16_publication_sources : forall (k : caps) (s : state) (o : op) (c : N) (m : msg),
+  In m (wills_for c (snd (step k s o))) -> src_ok s c m.
+Proof. exact step_src. Qed.
+
 (* ---- every interleaving of the old connection's shutdown with the new connection (Conc/Takeover.v) ---- *)
 
 (* a will without delay is published at most once, and exactly once when the old handler is through *)
@@ -106,6 +124,8 @@ Print Assumptions C16_refuted_takeover_delayed.
 Print Assumptions C16_refuted_delay_uncapped.
 Print Assumptions C16_refuted_clean_reconnect.
 Print Assumptions C16_refuted_delayed_retain.
+Print Assumptions C16_content.
+Print Assumptions C16_publication_sources.
 Print Assumptions C16_once_schedules.
 Print Assumptions C16_cancel_schedules_refuted.
 Print Assumptions C16_cancel_modulo_findings.
